@@ -587,6 +587,13 @@ func inputsCorrespondence(ctx *common.Ctx, r *common.Rand) {
 func randText(r *common.Rand) string {
 	var sb strings.Builder
 	for i, n := 0, r.Intn(6); i < n; i++ {
+		if r.Chance(1, 12) {
+			// a long line: readers with fixed buffers (4 KiB bufio, 64 KiB bufio.Scanner tokens)
+			n := common.Pick(r, []int{4095, 4096, 4097, 8192, 65535, 65536, 65537, 70000, 131073})
+			unit := common.Pick(r, []string{"a", "é", "x y", "\r"})
+			long := strings.Repeat(unit, n/len(unit))
+			sb.WriteString(long + strings.Repeat("z", n-len(long))) // exactly n bytes, valid UTF-8
+		}
 		sb.WriteString(common.Pick(r, []string{"", "a", "line two", "é漢", "x\ty", "\r", "{\"a\":1}", " ", "\x00", "tail\\n"}))
 		sb.WriteString(common.Pick(r, []string{"\n", "\n", "\n", "\r\n", "\n\n"}))
 	}
